@@ -35,14 +35,18 @@ fn main() {
     // after the first operation of the main thread failed (or at the end) and must then be refused
     let two = std::env::var("VERIF_TWO_WRITERS").is_ok();
     let go = std::sync::Arc::new(std::sync::atomic::AtomicBool::new(false));
+    let parked = std::sync::Arc::new(std::sync::atomic::AtomicBool::new(false));
     let second = if two {
         thread_local! { static SECOND: std::cell::Cell<bool> = std::cell::Cell::new(false); }
         let g2 = go.clone();
+        let p2 = parked.clone();
         fjall::verif::pause::set(Some(std::sync::Arc::new(move |name: &'static str| {
-            if name == "write.begin" && SECOND.with(|s| s.get()) { while !g2.load(std::sync::atomic::Ordering::Acquire) { std::thread::sleep(std::time::Duration::from_millis(1)); } }
+            if (name == "write.begin" || name == "persist.begin") && SECOND.with(|s| s.get()) { p2.store(true, std::sync::atomic::Ordering::Release); while !g2.load(std::sync::atomic::Ordering::Acquire) { std::thread::sleep(std::time::Duration::from_millis(1)); } }
         })));
         let k = kss[0].clone();
-        Some(std::thread::spawn(move || { SECOND.with(|s| s.set(true)); cls(k.insert("second-writer", "x")) }))
+        let as_persist = std::env::var("VERIF_TWO_WRITERS").map(|v| v == "persist").unwrap_or(false);
+        let db2 = db.clone();
+        Some(std::thread::spawn(move || { SECOND.with(|s| s.set(true)); if as_persist { cls(db2.persist(PersistMode::SyncAll)) } else { cls(k.insert("second-writer", "x")) } }))
     } else { None };
     if two { std::thread::sleep(std::time::Duration::from_millis(30)); }
     if let Ok(p) = std::env::var("VERIF_SHIM_ARM_FILE") { std::fs::write(p, b"1").unwrap(); }
@@ -64,7 +68,7 @@ fn main() {
             WOp::RotateJournal => cls(fjall::verif::verif_rotate_journal(&db)),
         };
         println!("R {i} {r} {seq}");
-        if r != "ok" { if let Some(h) = second.take() { go.store(true, std::sync::atomic::Ordering::Release); println!("B {i} {}", h.join().unwrap_or_else(|_| "panic".into())); } }
+        if r != "ok" { if let Some(h) = second.take() { go.store(true, std::sync::atomic::Ordering::Release); let held = parked.load(std::sync::atomic::Ordering::Acquire); println!("B {} {}", if held { i.to_string() } else { "notheld".into() }, h.join().unwrap_or_else(|_| "panic".into())); } }
     }
     if let Some(h) = second.take() { go.store(true, std::sync::atomic::Ordering::Release); println!("B end {}", h.join().unwrap_or_else(|_| "panic".into())); }
     drop(kss);
